@@ -12,6 +12,7 @@ import contextlib
 import datetime
 import io
 import json
+import math
 import os
 import re
 import shutil
@@ -154,6 +155,34 @@ def is_scalar(s):
 
 # ------------------------------------------------------------------ case generation (JSON-serialisable form)
 
+# amounts that are NOT whole cents: what statements really contain once fuel (litres x price per litre to a tenth of a cent), converted
+# foreign currency (amount x rate), per-mille / sub-cent fees, unit prices and computed fields (`field.amount * rate` in a transform)
+# come in.  The report must carry them as analysed: nothing in report.py rounds (established on the unchanged tree: transaction
+# amount, merchant ytd / monthly and the money-flow figures are embedded raw; only export_json / markdown / text round, for display).
+FINE = [0.004, 0.0049, 0.005, 0.015, 0.001, 0.0001, 183.4449, 131.1648, 21.8608, 2.675, 1.005, 0.125, 0.375, 64.129, 1.659, 1.0049, 99.995,
+        1234.5678, 0.333333, 19.999, 7.0051, 0.0149, 0.995, 10.005, 4999.9951]
+
+
+def gen_fine(r):
+    """a positive amount with 3-6 decimals (a decimal: an integer number of 10^-6)"""
+    k = r.random()
+    litres, price = r.randint(500, 9000) / 100, r.choice([1.659, 1.7289, 1.459, 2.019])
+    foreign, rate = r.randint(100, 500000) / 100, r.choice([1.09304, 0.8537, 0.0067, 1.3275])
+    places = r.choice([3, 4])
+    thousandths = r.randint(1, 99999) / 1000.0
+    cents = r.randint(1, 800000) / 100.0
+    pick = r.choice(FINE)
+    if k < 0.30:
+        return pick
+    if k < 0.55:
+        return round(litres * price, places)
+    if k < 0.78:
+        return round(foreign * rate, 4)
+    if k < 0.92:
+        return thousandths
+    return cents
+
+
 def gen_amount(r, mode):
     if mode == 'zero':
         return 0.0
@@ -162,8 +191,21 @@ def gen_amount(r, mode):
         return -a
     if mode == 'pos':
         return a
+    if mode == 'fine':
+        a = gen_fine(r)
+    elif mode == 'float':          # no decimal at all: the result of arithmetic on amounts (0.1 + 0.2, a third, amount x rate unrounded)
+        a = r.choice([r.uniform(0.001, 900.0), 0.1 + 0.2, 1 / 3, 200 / 3, 59.99 * 1.09304, 1e-9, 0.1 * 3])
     k = r.random()
     return 0.0 if k < 0.06 else (-a if k < 0.4 else a)
+
+
+def amount_scale(txns):
+    """the smallest S in 10^2, 10^3, 10^4, 10^6 such that every amount is a whole number of 1/S (then figures are compared with the
+    Lean model in integer units of 1/S - the model is linear in the amounts, the unit is arbitrary); None if there is none"""
+    for k in (2, 3, 4, 6):
+        if all(round(t['amount'], k) == t['amount'] for t in txns):
+            return 10 ** k
+    return None
 
 
 def gen_txn(r, merchants, adversarial, lone, amount_mode, date_fields):
@@ -212,7 +254,7 @@ def gen_txn(r, merchants, adversarial, lone, amount_mode, date_fields):
 def gen_case(r, profile=None):
     """profile: dict of switches; None = draw them."""
     p = {'adversarial': r.random() < 0.6, 'lone': r.random() < 0.1, 'collide': r.random() < 0.2, 'views': r.random() < 0.4,
-         'date_fields': r.random() < 0.12, 'amount_mode': r.choice(['mixed', 'mixed', 'mixed', 'neg', 'zero', 'pos']),
+         'date_fields': r.random() < 0.12, 'amount_mode': r.choice(['mixed', 'mixed', 'mixed', 'neg', 'zero', 'pos', 'fine', 'fine', 'fine', 'float']),
          'family': r.random() < 0.12}
     if profile:
         p.update(profile)
@@ -262,6 +304,17 @@ def corpus():
         ('D12f', mk([T('Shop', -7.25, extra={'d': {'__date__': '2025-03-04'}})])),
         ('views', mk([T('Shop', 120, date='2025-01-03'), T('Shop', 40, date='2025-02-03'), T("Joe's", 7), T('Emp', -900, ['income'])],
                      views=VIEWS)),
+        # amounts that are not whole cents (per-mille fee, fuel, converted currency, a refund): embedded as analysed, sums add up
+        ('sub-cent-amounts', mk([T('Card Fees', 0.004, desc='FX FEE 0.4%', cat='Fees', sub='Bank', date='2025-01-09'),
+                                 T('Card Fees', 0.004, desc='FX FEE 0.4%', cat='Fees', sub='Bank', date='2025-02-09'),
+                                 T('Fuel', 183.4449, desc='SHELL 110.575 L', cat='Transport', sub='Fuel', date='2025-01-20'),
+                                 T('Fuel', 64.129, desc='SHELL 38.655 L', cat='Transport', sub='Fuel', date='2025-02-11'),
+                                 T('Hotel Lisboa', 131.1648, desc='HOTEL LISBOA EUR 120.00', cat='Travel', sub='Lodging', date='2025-02-02'),
+                                 T('Hotel Lisboa', -21.8608, desc='HOTEL LISBOA REFUND EUR 20.00', cat='Travel', sub='Lodging', date='2025-02-05'),
+                                 T('Kiosk', 2.675, cat='Travel', sub='Food', date='2025-02-03'),
+                                 T('Emp', -2500.005, ['income'], cat='Income', sub='Salary', date='2025-01-31')])),
+        ('sub-cent-amounts-views', mk([T('Fuel', 183.4449, date='2025-01-03'), T('Fuel', 64.129, date='2025-02-03'), T('Fees', 0.004),
+                                       T('Fees', 0.0049, date='2025-02-15'), T('Emp', -900.015, ['income'])], views=VIEWS)),
     ]
 
 
@@ -650,6 +703,23 @@ def _leaves(v):
         yield v
 
 
+def sum_bound(terms, groups=0):
+    """how far a float sum of `terms`, added up in any order and any grouping (n - 1 + groups additions, each rounded once), can be
+    from their true sum: the standard bound gamma_k * sum|x| with gamma_k = k u / (1 - k u), u = 2^-53 (Higham, Accuracy and Stability
+    of Numerical Algorithms, 4.2), plus u |sum| for the rounding of the reference value itself.  0 when every partial sum is exact
+    (all terms multiples of 1/4 and small): then the comparison is bit for bit, as it was before amounts with more decimals came in."""
+    if all(isinstance(t, (int, float)) and float(t * 4).is_integer() and abs(t) < 2.0 ** 40 for t in terms) and len(terms) < 2 ** 10:
+        return 0.0
+    u = 2.0 ** -53
+    k = max(len(terms) - 1, 0) + groups
+    return (k * u / (1 - k * u)) * math.fsum(abs(t) for t in terms) + u * abs(math.fsum(terms))
+
+
+def sum_agrees(observed, terms, groups=0):
+    return isinstance(observed, (int, float)) and not isinstance(observed, bool) and \
+        abs(observed - math.fsum(terms)) <= sum_bound(terms, groups)
+
+
 def check_data(data, stats, case, fail, want, suffix=''):
     """decoded embedded data == what was analysed"""
     bm = stats['by_merchant']
@@ -699,20 +769,33 @@ def check_data(data, stats, case, fail, want, suffix=''):
         if sorted(m.get('tags') or []) != sorted(exp.get('tags', set())):
             fail('html-transaction-mismatch' + suffix, merchant=m['displayName'], field='tags')
             return
-    # per-category sums add up to the analysed totals
-    total = sum(d['total'] for d in bm.values())
+        # the merchant's monthly figure is one of the analysis' own per-merchant monthly figures, as it is (not re-rounded)
+        nm = stats.get('num_months') or 0
+        monthly_ok = [exp.get('avg_when_active'), exp.get('monthly_value'), exp['total'] / nm if nm else 0, 0]
+        if 'monthly' in m and not any(isinstance(x, (int, float)) and m['monthly'] == x for x in monthly_ok):
+            fail('html-merchant-figure-mismatch' + suffix, merchant=m['displayName'], figure='monthly', observed=m['monthly'],
+                 analysed={'avg_when_active': exp.get('avg_when_active'), 'total/12': exp.get('monthly_value'),
+                           'total/num_months': exp['total'] / nm if nm else 0})
+            return
+    # per-category sums add up to the analysed totals: every total in the view is a float sum, in SOME order and grouping, of the
+    # analysed totals of the merchants below it (which were just compared bit for bit) - see sum_agrees
     count = sum(d['count'] for d in bm.values())
-    if sum(c.get('total', 0) for c in cv.values()) != total or sum(c.get('count', 0) for c in cv.values()) != count:
-        fail('html-category-sums' + suffix, observed=sum(c.get('total', 0) for c in cv.values()), required=total)
+    grand = sum(c.get('total', 0) for c in cv.values())
+    if not sum_agrees(grand, [d['total'] for d in bm.values()], groups=len(cv)) or sum(c.get('count', 0) for c in cv.values()) != count:
+        fail('html-category-sums' + suffix, observed=grand, required=math.fsum(d['total'] for d in bm.values()),
+             allowed_error=sum_bound([d['total'] for d in bm.values()], len(cv)))
         return
     for cat, c in cv.items():
         subs = c.get('subcategories') or {}
-        if c.get('total') != sum(s.get('total', 0) for s in subs.values()):
-            fail('html-category-sums' + suffix, category=cat)
+        below = [bm[m['displayName']]['total'] for s in subs.values() for m in s['merchants'].values()]
+        if not sum_agrees(c.get('total'), below) or not sum_agrees(sum(s.get('total', 0) for s in subs.values()), below, groups=len(subs)):
+            fail('html-category-sums' + suffix, category=cat, observed=c.get('total'), required=math.fsum(below), allowed_error=sum_bound(below))
             return
         for sub, s in subs.items():
-            if s.get('total') != sum(m.get('ytd', 0) for m in s['merchants'].values()):
-                fail('html-category-sums' + suffix, category=cat, subcategory=sub)
+            below = [bm[m['displayName']]['total'] for m in s['merchants'].values()]
+            if not sum_agrees(s.get('total'), below):
+                fail('html-category-sums' + suffix, category=cat, subcategory=sub, observed=s.get('total'), required=math.fsum(below),
+                     allowed_error=sum_bound(below))
                 return
     # views: every merchant of a view appears in it exactly once
     for name, sec in (stats.get('sections') or {}).items():
@@ -979,7 +1062,7 @@ def correspondence(ctx, impl, cases, r):
                    t2.count(PH['DATA']) == 1 and tpl.count(PH['CSS']) == 1 and tpl.count(PH['JS']) == 1 and PH['JS'] not in css and PH['DATA'] not in css,
                    error='placeholder counts: %r' % {k: t2.count(v) for k, v in PH.items()})
     # ---- category view and figures
-    cv_bad, fg_bad, ncv = [], [], 0
+    cv_bad, fg_bad, ncv, no_scale, scales = [], [], 0, 0, {}
     reqs, metas = [], []
     for case in cases:
         try:
@@ -989,19 +1072,27 @@ def correspondence(ctx, impl, cases, r):
         bm = stats['by_merchant']
         if not all(is_scalar(n) and is_scalar(d['category'] + d['subcategory']) for n, d in bm.items()):
             continue
+        # the model computes in integers; the unit is 1/S of the currency unit where S is the scale at which every amount of the case is
+        # whole (cents for two-decimal amounts, 10^-3 .. 10^-6 for the sub-cent stream); amounts that are no decimals at all are left
+        # to the implementation-only oracle
+        S = amount_scale(case['txns'])
+        if S is None:
+            no_scale += 1
+            continue
+        scales[S] = scales.get(S, 0) + 1
         rows = []
         for n, d in bm.items():
             cat = d.get('category') or 'Uncategorized'
             cat = 'Uncategorized' if cat == 'Unknown' else cat
-            rows.append({'id': cps(base_id(n)), 'cat': cps(cat), 'sub': [], 'ytd': int(round(d['total'] * 100)), 'count': d['count']})
-        ft = [{'merchant': cps(t['merchant']), 'amount': int(round(t['amount'] * 100)),
+            rows.append({'id': cps(base_id(n)), 'cat': cps(cat), 'sub': [], 'ytd': int(round(d['total'] * S)), 'count': d['count']})
+        ft = [{'merchant': cps(t['merchant']), 'amount': int(round(t['amount'] * S)),
                'income': 'income' in [x.lower() for x in t['tags']], 'transfer': 'transfer' in [x.lower() for x in t['tags']],
                'investment': 'investment' in [x.lower() for x in t['tags']]} for t in case['txns']]
         reqs.append({'op': 'report', 'fn': 'catview', 'rows': rows})
         reqs.append({'op': 'report', 'fn': 'figures', 'txns': ft})
-        metas.append((case, stats))
+        metas.append((case, stats, S))
     outs = drv.batch(reqs)
-    for n, (case, stats) in enumerate(metas):
+    for n, (case, stats, S) in enumerate(metas):
         cvm, fgm = outs[2 * n], outs[2 * n + 1]
         bm = stats['by_merchant']
         c2 = {**case, 'txns': [{k: v for k, v in t.items() if k != 'extra_fields'} for t in case['txns']], 'views': None}
@@ -1015,7 +1106,7 @@ def correspondence(ctx, impl, cases, r):
             continue
         ncv += 1
         kept = [mid for c in data['categoryView'].values() for s in c['subcategories'].values() for mid in s['merchants']]
-        sums = {c: int(round(v['total'] * 100)) for c, v in data['categoryView'].items()}
+        sums = {c: int(round(v['total'] * S)) for c, v in data['categoryView'].items()}
         model_kept = sorted(uncps(k) for k in cvm['kept'])
         model_sums = {uncps(k): v for k, v in cvm['sums']}
         repaired_view = len(kept) == len(bm) and sum(sums.values()) == cvm['analysed']
@@ -1024,24 +1115,37 @@ def correspondence(ctx, impl, cases, r):
                            'implementation_sums': sums})
         flow = {'flow_income': stats['income_total'], 'flow_spending': stats['spending_total'], 'flow_credits': stats['credits_total'],
                 'flow_cash': stats['cash_flow']}
-        if any(int(round(v * 100)) != fgm[k] for k, v in flow.items()):
-            fg_bad.append({'case': case, 'model': fgm, 'implementation': flow})
+        if any(int(round(v * S)) != fgm[k] for k, v in flow.items()):
+            fg_bad.append({'case': case, 'unit': '1/%d' % S, 'model': fgm, 'implementation': flow})
             continue
         from tally import analyzer
         summ = json.loads(analyzer.export_json(stats))['summary']
         jm = {'income_total': fgm['json_income'], 'credits_total': fgm['json_credits'], 'net_cash_flow': fgm['json_net']}
         jf = {'income_total': fgm['flow_income'], 'credits_total': fgm['flow_credits'],
               'net_cash_flow': fgm['flow_cash'] if fgm['flow_income'] > 0 else None}
-        obs = {k: (None if summ.get(k) is None else int(round(summ[k] * 100))) for k in jm}
-        if obs != jm and obs != jf:
-            fg_bad.append({'case': case, 'model_unrepaired': jm, 'model_repaired': jf, 'implementation': obs})
+        if S == 100:
+            obs = {k: (None if summ.get(k) is None else int(round(summ[k] * 100))) for k in jm}
+            bad = obs != jm and obs != jf
+        else:
+            # export_json rounds its summary to cents FOR DISPLAY (round(x, 2)); the model figure is exact in units of 1/S:
+            # the printed figure is within half a cent of it (+ one unit for the float in between)
+            obs = {k: summ.get(k) for k in jm}
+
+            def near(model):
+                return all((obs[k] is None) == (model[k] is None) and
+                           (obs[k] is None or abs(obs[k] * S - model[k]) <= S / 200 + 1) for k in jm)
+            bad = not near(jm) and not near(jf)
+        if bad:
+            fg_bad.append({'case': case, 'unit': '1/%d' % S, 'model_unrepaired': jm, 'model_repaired': jf, 'implementation': obs})
     ctx.obligation('correspondence:build_category_view-vs-categoryViewSums', 'correspondence', not cv_bad, cases=ncv,
                    error=json.dumps(cv_bad[0], default=str)[:1500] if cv_bad else None)
     ctx.obligation('correspondence:analyze_transactions/export_json-summary-vs-flow/json figures', 'correspondence', not fg_bad, cases=len(metas),
                    error=json.dumps(fg_bad[0], default=str)[:1500] if fg_bad else None)
     return {'strings': len(pool), 'ids_observed': nid, 'damaged_literals': len(muts), 'damaged_literals_still_valid': ndec_ok,
             'script_end_texts': len(texts), 'script_end_true': ends_true, 'script_end_compared_with_html.parser': agree_class,
-            'splice_cases': len(idx), 'splice_cases_where_order_matters': rescans, 'category_view_cases': ncv}
+            'splice_cases': len(idx), 'splice_cases_where_order_matters': rescans, 'category_view_cases': ncv,
+            'category_view_cases_by_amount_unit': {'1/%d' % k: v for k, v in sorted(scales.items())},
+            'cases_with_non_decimal_amounts_left_to_the_oracle': no_scale}
 
 
 def observed_ids(data):
@@ -1174,7 +1278,8 @@ def run(ctx):
         labelled = corpus()
         cases = [c for _, c in labelled] + [gen_case(r) for _ in range(n)]
         renders, nontriv, trig = 0, set(), {'script_end': 0, 'placeholder': 0, 'collision': 0, 'date_field': 0, 'views': 0, 'lone_surrogate': 0,
-                                            'all_nonpositive': 0}
+                                            'all_nonpositive': 0, 'amounts_not_whole_cents': 0, 'amounts_not_decimal': 0,
+                                            'category_sums_compared_under_float_order_bound': 0}
         for i, c in enumerate(cases):
             fails, info = run_case(impl, c)
             prop_fail.extend(fails)
@@ -1190,6 +1295,11 @@ def run(ctx):
             trig['views'] += bool(c.get('views'))
             trig['lone_surrogate'] += any(not is_scalar(t['description'] + t['merchant']) for t in c['txns'])
             trig['all_nonpositive'] += all(t['amount'] <= 0 for t in c['txns'])
+            sc = amount_scale(c['txns'])
+            trig['amounts_not_whole_cents'] += sc is not None and sc > 100
+            trig['amounts_not_decimal'] += sc is None
+            trig['category_sums_compared_under_float_order_bound'] += bool(info.get('html_ok')) and \
+                any(not float(t['amount'] * 4).is_integer() for t in c['txns'])
         # ---- id-allocation stream: adversarial merchant-name families (all ordered small subsets + random families)
         idc = id_cases(r, ctx.quick)
         idstat = {'cases': len(idc), 'with_views': 0, 'natural_id_shared_by_two_names': 0,
@@ -1218,7 +1328,13 @@ def run(ctx):
                                                        ('strings', 'ids_observed', 'damaged_literals', 'script_end_compared_with_html.parser',
                                                         'splice_cases', 'category_view_cases', 'id_alloc_tables'))
         ctx.cov['distinct_nontrivial'] = len(nontriv)
-        ctx.cov['rule'] = ('generated transaction lists (1–22 txns; amounts k/4 so that float sums are exact; adversarial descriptions / merchant '
+        ctx.cov['rule'] = ('generated transaction lists (1–22 txns; amounts: 60 %% k/4 so that float sums are exact, 30 %% with 3–6 decimals — '
+                           'per-mille and sub-cent fees 0.004 / 0.0049 / 0.005, fuel = litres × price per litre, converted currency = amount × '
+                           'rate, thousandths, ties like 2.675 / 1.005 — and 10 %% no decimals at all (0.1 + 0.2, thirds, unrounded products); '
+                           'embedded transaction amounts, merchant ytd / monthly and the money-flow figures are compared BIT FOR BIT with '
+                           'the analysis (report.py rounds nothing), category / subcategory totals against the correctly rounded sum of the '
+                           'analysed merchant totals within the float-summation bound γ_k·Σ|x| (k = number of additions; 0 = exact for the '
+                           'k/4 amounts), figures printed by JSON / markdown to half a cent; adversarial descriptions / merchant '
                            'names / tags / sources / extra fields: script end tags in several spellings, quotes, backslashes, the three template '
                            'placeholders, format braces, BMP + astral + line-separator characters, controls, single lone surrogates; merchant '
                            'families that differ only in quotes / spaces / underscores; all-negative and all-zero totals; with and without views; '
@@ -1262,7 +1378,10 @@ def run(ctx):
             'strings are lists of Unicode scalar values in the model; lone surrogates are exercised on the implementation only',
             'scriptDataEnds follows the HTML standard; html.parser (CPython 3.12: </\\s*script\\s*>) is compared with it on the texts where the two '
             'rules agree; browsers, Vue and the report JavaScript are outside the model',
-            'figures are parsed back from text/markdown with regular expressions written for the current layouts; amounts are multiples of 0.25 '
-            'so that float arithmetic is exact; JSON values (numbers, nesting) other than strings are trusted to json'])
+            'figures are parsed back from text/markdown with regular expressions written for the current layouts; for amounts that are '
+            'multiples of 0.25 float arithmetic is exact and sums are compared exactly; for the sub-cent stream category sums are compared '
+            'within the standard recursive-summation error bound (order of additions is not part of the property); the Lean figures / '
+            'category-view models run in integer units of 10^-2 … 10^-6 per case, non-decimal amounts are implementation-oracle only; '
+            'JSON values (numbers, nesting) other than strings are trusted to json'])
     finally:
         impl.close()
